@@ -238,10 +238,10 @@ M('extra-emit-stop-in-shutdown-finally', ['C18'], F, "                        fi
 M('complete-on-error-path', ['C18'], F, """                if filter is not None and hasattr(filter, 'emitter') and filter.emitter is not None:
                     filter.emitter.stop_lineage_heart_beat()
                     filter.emitter.emit_stop()
-                logger.error(exc)""", """                if filter is not None and hasattr(filter, 'emitter') and filter.emitter is not None:
+                logger.error(hide_uri_users_and_pwds(str(exc)))""", """                if filter is not None and hasattr(filter, 'emitter') and filter.emitter is not None:
                     filter.emitter.stop_lineage_heart_beat()
                     filter.emitter.emit_complete()
-                logger.error(exc)""", ['C18.R2', 'C18.R1'])
+                logger.error(hide_uri_users_and_pwds(str(exc)))""", ['C18.R2', 'C18.R1'])
 M('heartbeat-emits-abort', ['C18'], LN, "            self._stop_event.wait(self.interval)\n        self.emit_complete()", "            self._stop_event.wait(self.interval)\n        self.emit_stop()", ['C18.R1', 'C18.R2'])
 M('run-id-regenerated', ['C18'], LN, "        self._stop_event.clear()\n        self._thread = threading.Thread(target=self._heartbeat_loop, daemon=True)", "        self._stop_event.clear()\n        self.run_id = self.get_run_id()\n        self._thread = threading.Thread(target=self._heartbeat_loop, daemon=True)", ['C18.R3'])
 M('start-after-heartbeat', ['C18'], F, "            self.emitter.emit_start(facets=facets)\n            self.emitter.start_lineage_heart_beat()", "            self.emitter.start_lineage_heart_beat()\n            self.emitter.emit_start(facets=facets)", ['C18.R3'])
@@ -695,3 +695,7 @@ M('cli-D46-shape-wildcard-prefix-test', ['C12'], CLI, '''"localhost" if addr in 
 M('cli-D45-shape-sources-not-reserved', ['C12'], CLI, '''        for source in split_commas_maybe(config.sources) or ():''', '''        for source in ():''', ['C12.R12'])
 
 M('loop-D50-shape-error-handler-skips-deadline', ['C08'], F, "                                    if (exit_after_t := filter.exit_after_t) is not None and time.time() >= exit_after_t:  # loop_once() did not get as far as its own test of the deadline\n                                        filter.exit('exit_after')\n", "", ['C08.R4'])
+
+M('zmq-D51-shape-sender-addr-raw', ['C15'], Z, "            self.addr        = hide_uri_users_and_pwds(addr_connect)  # only used in messages", "            self.addr        = addr_connect", ['C15.R1'])
+M('zmq-D51-shape-publishing-on-raw', ['C15'], Z, "publishing on {hide_uri_users_and_pwds(pub_addr)}, listening on", "publishing on {pub_addr}, listening on", ['C15.R1'])
+M('run-D51-shape-logs-raw-exception', ['C15'], F, "                logger.error(hide_uri_users_and_pwds(str(exc)))  # libraries put the address or URI they were given into their messages\n\n                raise", "                logger.error(exc)\n\n                raise", ['C15.R6'])
